@@ -66,6 +66,27 @@ pub fn fs_subject_main(args: Vec<String>) -> ! {
             let mut syms = std::collections::HashMap::new();
             chialisp::classic::clvm_tools::clvmc::compile_clvm(&args[1], &args[2], &[], &mut syms).map(|_| ())
         }
+        // `gentle-threads <out> <result-prefix> <data1> <data2> ...`: one writer THREAD per datum (same process id);
+        // each thread records its own outcome in <result-prefix><i> (outside the target directory)
+        Some("gentle-threads") => {
+            let out = args[1].clone();
+            let prefix = args[2].clone();
+            let hs: Vec<_> = args[3..]
+                .iter()
+                .enumerate()
+                .map(|(i, d)| {
+                    let (out, d, prefix) = (out.clone(), d.clone(), prefix.clone());
+                    std::thread::spawn(move || {
+                        let r = chialisp::util::gentle_overwrite("input.clsp", &out, &d);
+                        let _ = std::fs::write(format!("{}{}", prefix, i), if r.is_ok() { "ok" } else { "err" });
+                    })
+                })
+                .collect();
+            for h in hs {
+                let _ = h.join();
+            }
+            Ok(())
+        }
         _ => Err("bad subject command".to_string()),
     };
     match r {
@@ -81,6 +102,10 @@ pub fn fs_subject_main(args: Vec<String>) -> ! {
 }
 
 struct Tracee {
+    /// true for a thread of a multi-threaded subject (waited for with __WALL, never killed on its own)
+    is_thread: bool,
+    /// set when the tracee did not reach its next stop within the limit (blocked on another, stopped, thread)
+    blocked: bool,
     pid: i32,
     /// fds opened on paths inside the target directory
     fds: Vec<i64>,
@@ -147,7 +172,60 @@ fn spawn_traced(args: &[String]) -> Tracee {
     assert!(r == pid && libc::WIFSTOPPED(status), "subject did not stop at exec");
     let r = ptrace(libc::PTRACE_SETOPTIONS, pid, 0, (libc::PTRACE_O_TRACESYSGOOD | libc::PTRACE_O_EXITKILL) as usize);
     assert!(r == 0, "PTRACE_SETOPTIONS failed");
-    Tracee { pid, fds: vec![], in_syscall: false, alive: true, exit_code: None, cur: None, pending_write_len: 0 }
+    Tracee { is_thread: false, blocked: false, pid, fds: vec![], in_syscall: false, alive: true, exit_code: None, cur: None, pending_write_len: 0 }
+}
+
+/// Spawn one subject PROCESS with `n` writer THREADS of the same target; returns the stopped main thread and the
+/// n worker threads as tracees, each stopped at its birth. The main thread is left stopped (it would only block
+/// in join) and is resumed when the workers are gone.
+fn spawn_traced_threads(target: &str, result_prefix: &str, news: &[String]) -> Option<(Tracee, Vec<Tracee>)> {
+    let exe = std::env::current_exe().expect("exe");
+    let mut cmd = std::process::Command::new(exe);
+    cmd.arg("--fs-subject").arg("gentle-threads").arg(target).arg(result_prefix).args(news).stdout(std::process::Stdio::null()).stderr(std::process::Stdio::null()).stdin(std::process::Stdio::null());
+    unsafe {
+        cmd.pre_exec(|| {
+            if libc::ptrace(libc::PTRACE_TRACEME, 0, 0, 0) != 0 {
+                return Err(std::io::Error::last_os_error());
+            }
+            Ok(())
+        });
+    }
+    let child = cmd.spawn().expect("spawn subject");
+    let pid = child.id() as i32;
+    std::mem::forget(child);
+    let mut status = 0;
+    let r = unsafe { libc::waitpid(pid, &mut status, libc::__WALL) };
+    assert!(r == pid && libc::WIFSTOPPED(status), "subject did not stop at exec");
+    let opts = libc::PTRACE_O_TRACESYSGOOD | libc::PTRACE_O_EXITKILL | libc::PTRACE_O_TRACECLONE;
+    assert!(ptrace(libc::PTRACE_SETOPTIONS, pid, 0, opts as usize) == 0, "PTRACE_SETOPTIONS failed");
+    let mut main = Tracee { is_thread: false, blocked: false, pid, fds: vec![], in_syscall: false, alive: true, exit_code: None, cur: None, pending_write_len: 0 };
+    let mut workers = vec![];
+    let deadline = std::time::Instant::now() + Duration::from_secs(60);
+    while workers.len() < news.len() {
+        if std::time::Instant::now() > deadline || ptrace(libc::PTRACE_SYSCALL, pid, 0, 0) != 0 {
+            main.kill();
+            return None;
+        }
+        let w = unsafe { libc::waitpid(pid, &mut status, libc::__WALL) };
+        if w != pid || !libc::WIFSTOPPED(status) {
+            main.kill();
+            return None;
+        }
+        if (status >> 8) == (libc::SIGTRAP | (libc::PTRACE_EVENT_CLONE << 8)) {
+            let mut newtid: libc::c_ulong = 0;
+            ptrace(libc::PTRACE_GETEVENTMSG, pid, 0, &mut newtid as *mut _ as usize);
+            let tid = newtid as i32;
+            // the new thread is attached automatically and starts with a stop of its own
+            let mut st2 = 0;
+            let w2 = unsafe { libc::waitpid(tid, &mut st2, libc::__WALL) };
+            if w2 != tid || !libc::WIFSTOPPED(st2) {
+                main.kill();
+                return None;
+            }
+            workers.push(Tracee { is_thread: true, blocked: false, pid: tid, fds: vec![], in_syscall: false, alive: true, exit_code: None, cur: None, pending_write_len: 0 });
+        }
+    }
+    Some((main, workers))
 }
 
 #[derive(Clone, Debug, PartialEq)]
@@ -218,7 +296,24 @@ impl Tracee {
                 return Stop::Gone;
             }
             let mut status = 0;
-            let w = unsafe { libc::waitpid(self.pid, &mut status, 0) };
+            let w = if self.is_thread {
+                // a thread may block on a lock held by another (stopped) thread: bounded wait
+                let t0 = std::time::Instant::now();
+                loop {
+                    let w = unsafe { libc::waitpid(self.pid, &mut status, libc::__WALL | libc::WNOHANG) };
+                    if w != 0 {
+                        break w;
+                    }
+                    if t0.elapsed() > Duration::from_secs(20) {
+                        self.blocked = true;
+                        self.alive = false;
+                        return Stop::Gone;
+                    }
+                    std::thread::sleep(Duration::from_micros(200));
+                }
+            } else {
+                unsafe { libc::waitpid(self.pid, &mut status, libc::__WALL) }
+            };
             if w != self.pid {
                 self.alive = false;
                 return Stop::Gone;
@@ -270,11 +365,15 @@ impl Tracee {
     }
 
     fn kill(&mut self) {
+        if self.is_thread {
+            self.alive = false;
+            return;
+        }
         if self.alive {
             unsafe {
                 libc::kill(self.pid, libc::SIGKILL);
                 let mut status = 0;
-                libc::waitpid(self.pid, &mut status, 0);
+                libc::waitpid(self.pid, &mut status, libc::__WALL);
             }
             self.alive = false;
             self.exit_code = Some(-9);
@@ -494,6 +593,8 @@ fn check_single(st: &mut Stats, dir: &str, prev: &Prev, fault: &Fault, counters:
 // ---- interleavings of several writers
 
 struct MultiResult {
+    /// set when the run could not be driven (a thread blocked on a stopped one, ...): never a verdict
+    machinery: Option<String>,
     schedule_taken: Vec<usize>,
     enabled_at: Vec<Vec<usize>>,
     running_at: Vec<Option<usize>>,
@@ -504,11 +605,26 @@ struct MultiResult {
 /// Run `n` writers under the given schedule prefix; after the prefix the default policy keeps the
 /// running writer if still enabled, else the lowest enabled id. One step = one relevant syscall
 /// (from its entry stop through its exit to the next entry stop or process end).
-fn run_multi(dir: &str, prev: &Prev, n: usize, prefix: &[usize]) -> MultiResult {
+fn run_multi(dir: &str, prev: &Prev, n: usize, prefix: &[usize], threads: bool) -> MultiResult {
     let news: Vec<String> = (0..n).map(|i| new_data(i + 1)).collect();
     let target = setup_dir(dir, prev, &news[0]);
     let dirp = format!("{}/", dir);
-    let mut ts: Vec<Tracee> = (0..n).map(|i| spawn_traced(&["gentle".to_string(), target.clone(), news[i].clone()])).collect();
+    let result_prefix = format!("{}.result", dir);
+    for i in 0..n {
+        let _ = std::fs::remove_file(format!("{}{}", result_prefix, i));
+    }
+    let mut main_thread: Option<Tracee> = None;
+    let mut ts: Vec<Tracee> = if threads {
+        match spawn_traced_threads(&target, &result_prefix, &news) {
+            Some((m, w)) => {
+                main_thread = Some(m);
+                w
+            }
+            None => return MultiResult { schedule_taken: vec![], enabled_at: vec![], running_at: vec![], bad: None, steps: 0, machinery: Some("could not bring the threaded subject to its worker threads".to_string()) },
+        }
+    } else {
+        (0..n).map(|i| spawn_traced(&["gentle".to_string(), target.clone(), news[i].clone()])).collect()
+    };
     // bring every writer to its first relevant syscall entry
     for t in ts.iter_mut() {
         loop {
@@ -518,7 +634,7 @@ fn run_multi(dir: &str, prev: &Prev, n: usize, prefix: &[usize]) -> MultiResult 
             }
         }
     }
-    let mut res = MultiResult { schedule_taken: vec![], enabled_at: vec![], running_at: vec![], bad: None, steps: 0 };
+    let mut res = MultiResult { schedule_taken: vec![], enabled_at: vec![], running_at: vec![], bad: None, steps: 0, machinery: None };
     let mut running: Option<usize> = None;
     let mut done_ok = vec![false; n];
     loop {
@@ -546,16 +662,26 @@ fn run_multi(dir: &str, prev: &Prev, n: usize, prefix: &[usize]) -> MultiResult 
                 Stop::Exit(_, _) => {}
                 Stop::Entry(_, _) => break,
                 Stop::Gone => {
-                    done_ok[choice] = t.exit_code == Some(0);
+                    done_ok[choice] = if threads { std::fs::read_to_string(format!("{}{}", result_prefix, choice)).map(|r| r == "ok").unwrap_or(false) } else { t.exit_code == Some(0) };
                     break;
                 }
             }
+        }
+        if ts[choice].blocked {
+            res.machinery = Some(format!("worker thread {} did not reach its next stop (blocked on a stopped thread) at step {}", choice, step));
+            break;
         }
         res.steps += 1;
         let o = observe(&target);
         if !allowed(&o, prev, &news, done_ok.iter().any(|d| *d)) && res.bad.is_none() {
             res.bad = Some(format!("after step {} (writer {}) the target holds {:?}", step, choice, o.map(|b| String::from_utf8_lossy(&b).chars().take(60).collect::<String>())));
         }
+    }
+    if res.machinery.is_some() {
+        if let Some(m) = main_thread.as_mut() {
+            m.kill();
+        }
+        return res;
     }
     // all writers finished: the target must hold one writer's complete data
     let o = observe(&target);
@@ -566,10 +692,14 @@ fn run_multi(dir: &str, prev: &Prev, n: usize, prefix: &[usize]) -> MultiResult 
     for t in ts.iter_mut() {
         t.kill();
     }
+    if let Some(m) = main_thread.as_mut() {
+        m.kill();
+    }
     res
 }
 
-fn explore_schedules(st: &mut Stats, dir: &str, prev: &Prev, n: usize, bound: usize, counters: &mut (u64, u64), max_execs: usize) -> bool {
+#[allow(clippy::too_many_arguments)]
+fn explore_schedules(st: &mut Stats, dir: &str, prev: &Prev, n: usize, bound: usize, counters: &mut (u64, u64), max_execs: usize, threads: bool) -> bool {
     // iterative context bounding by re-execution
     let mut stack: Vec<(Vec<usize>, usize)> = vec![(vec![], 0)]; // (prefix, preemptions used in prefix)
     let mut execs = 0usize;
@@ -580,14 +710,19 @@ fn explore_schedules(st: &mut Stats, dir: &str, prev: &Prev, n: usize, bound: us
         }
         execs += 1;
         st.eval();
-        let r = run_multi(dir, prev, n, &prefix);
+        let r = run_multi(dir, prev, n, &prefix, threads);
+        if let Some(m) = &r.machinery {
+            st.count(&format!("schedule-not-drivable(machinery, no verdict)[{}]", m.chars().take(60).collect::<String>()), 1);
+            continue;
+        }
         counters.0 += r.steps + 1;
         counters.1 += r.steps;
         outcomes.insert(r.schedule_taken.clone());
         if let Some(b) = &r.bad {
-            st.violation(&format!("interleaving/{}-writers/{:?}", n, prev), format!("{} writers, previous state {:?}, schedule {:?}: {}", n, prev, r.schedule_taken, b), r.schedule_taken.len(), json!({"kind": "c19-multi", "writers": n, "prev": format!("{:?}", prev), "schedule": r.schedule_taken}));
+            let kind = if threads { "threads-of-one-process" } else { "processes" };
+            st.violation(&format!("interleaving/{}-writer-{}/{:?}", n, kind, prev), format!("{} writers ({}), previous state {:?}, schedule {:?}: {}", n, kind, prev, r.schedule_taken, b), r.schedule_taken.len(), json!({"kind": "c19-multi", "writers": n, "writer_kind": kind, "prev": format!("{:?}", prev), "schedule": r.schedule_taken}));
         } else {
-            st.nontrivial(&(n, format!("{:?}", prev), r.schedule_taken.clone()));
+            st.nontrivial(&(n, threads, format!("{:?}", prev), r.schedule_taken.clone()));
             if prefix.len() == 2 {
                 st.sample(json!({"writers": n, "previous": format!("{:?}", prev), "schedule": r.schedule_taken, "steps": r.steps}));
             }
@@ -612,19 +747,19 @@ fn explore_schedules(st: &mut Stats, dir: &str, prev: &Prev, n: usize, bound: us
             let _ = &mut cost;
         }
     }
-    st.count(&format!("schedules[{}-writers,{:?},bound{}]", n, prev, bound), execs as u64);
+    st.count(&format!("schedules[{}-writer-{},{:?},bound{}]", n, if threads { "threads" } else { "processes" }, prev, bound), execs as u64);
     st.count("distinct-complete-schedules", outcomes.len() as u64);
     true
 }
 
 pub fn c19(thorough: bool, replay: Option<String>) -> i32 {
     let mut rep = Report::new("C19", if thorough { "thorough" } else { "quick" }, "fault_enumeration");
-    rep.rule = "the real routine (util::gentle_overwrite, as called by compile_clvm) runs in a subject process under a ptrace controller that stops it at the entry and exit of every file-system syscall touching the target directory. Enumerated exhaustively: (i) SIGKILL at every syscall boundary x previous state of the target {absent, same contents, different contents}; (ii) at every write, every short-write split {1, n/2, n-1}, with and without a crash right after; (iii) at every syscall, each errno of {EACCES, EROFS, ENOSPC, EIO} injected (the sandbox runs as root, so a read-only target is modelled by failing calls); (iv) 2 (thorough 3) concurrent writers of the same path advanced one syscall at a time, all schedules with <= 2 preemptions. \
+    rep.rule = "the real routine (util::gentle_overwrite, as called by compile_clvm) runs in a subject process under a ptrace controller that stops it at the entry and exit of every file-system syscall touching the target directory. Enumerated exhaustively: (i) SIGKILL at every syscall boundary x previous state of the target {absent, same contents, different contents}; (ii) at every write, every short-write split {1, n/2, n-1}, with and without a crash right after; (iii) at every syscall, each errno of {EACCES, EROFS, ENOSPC, EIO} injected (the sandbox runs as root, so a read-only target is modelled by failing calls); (iv) 2 (thorough 3) concurrent writers of the same path - separate processes, and threads of one process sharing its process id - advanced one syscall at a time, all schedules with <= 2 preemptions. \
         After EVERY boundary / step the controller itself opens and reads the target (the concurrent reader): it must be absent only if it was absent before and no writer has completed, and otherwise hold exactly the previous or one writer's complete new contents. With equal contents the call must succeed even when a syscall fails; a reported failure must leave the target unchanged. non-trivial = distinct (previous state, fault / schedule) executions that reached their fault point and satisfied the invariant at every observation"
         .to_string();
     rep.assumptions = vec![
         "crash = process death at a syscall boundary (SIGKILL / OOM kill); power loss with unsynced page cache is outside the property".to_string(),
-        "the subject is single-threaded; scheduling points are the file-system syscalls, the only points at which another process can observe or interfere".to_string(),
+        "scheduling points are the file-system syscalls, the only points at which another process or thread can observe or interfere through the file system; writers are separate processes, and also threads of one process (same process id), each a ptrace tracee of its own".to_string(),
         "stray temporary files left in the directory are allowed".to_string(),
     ];
     if replay.is_some() {
@@ -670,25 +805,30 @@ pub fn c19(thorough: bool, replay: Option<String>) -> i32 {
     rep.add_sub("single-writer-faults", &format!("{} executions: every syscall boundary x {{crash, 4 errnos, 3 short-write splits with/without crash}} x 3 previous states", n), n, true, capped, st);
 
     // interleavings
-    let mut combos: Vec<(usize, Prev, usize)> = if thorough { vec![(2, Prev::Absent, 2), (2, Prev::Different, 2), (2, Prev::Same, 2)] } else { vec![(2, Prev::Absent, 2), (2, Prev::Different, 1), (2, Prev::Same, 1)] };
+    // (writers, previous state, preemption bound, writers are threads of ONE process - same process id)
+    let mut combos: Vec<(usize, Prev, usize, bool)> = if thorough { vec![(2, Prev::Absent, 2, false), (2, Prev::Different, 2, false), (2, Prev::Same, 2, false)] } else { vec![(2, Prev::Absent, 2, false), (2, Prev::Different, 1, false), (2, Prev::Same, 1, false)] };
+    combos.push((2, Prev::Absent, if thorough { 2 } else { 1 }, true));
+    combos.push((2, Prev::Different, if thorough { 2 } else { 1 }, true));
     if thorough {
-        combos.push((3, Prev::Absent, 2));
-        combos.push((3, Prev::Different, 2));
-        combos.push((2, Prev::Absent, 4));
+        combos.push((3, Prev::Absent, 2, false));
+        combos.push((3, Prev::Different, 2, false));
+        combos.push((2, Prev::Absent, 4, false));
+        combos.push((2, Prev::Same, 2, true));
+        combos.push((3, Prev::Different, 1, true));
     }
     let nc = combos.len() as u64;
     let max_execs = if thorough { 20000 } else { 400 };
     let (mut st, _capped) = par_range(nc, 1, cap, || (0u64, 0u64), |c, st, i| {
-        let (nw, p, bound) = &combos[i as usize];
+        let (nw, p, bound, threads) = &combos[i as usize];
         let dir = format!("{}/m{:?}", base, std::thread::current().id()).replace(['(', ')'], "");
-        let complete = explore_schedules(st, &dir, p, *nw, *bound, c, max_execs);
+        let complete = explore_schedules(st, &dir, p, *nw, *bound, c, max_execs, *threads);
         if !complete {
             st.count("schedule-exploration-capped", 1);
         }
     });
     let capped2 = st.counters.get("schedule-exploration-capped").copied().unwrap_or(0) > 0;
     st.max_samples = 3;
-    rep.add_sub("writer-interleavings", &format!("{:?} (writers, previous state, preemption bound): all schedules within the bound, explored by re-execution; cap {} executions per combination", combos.iter().map(|c| (c.0, format!("{:?}", c.1), c.2)).collect::<Vec<_>>(), max_execs), nc, true, capped2, st);
+    rep.add_sub("writer-interleavings", &format!("{:?} (writers, previous state, preemption bound, writers are threads of one process): all schedules within the bound, explored by re-execution; cap {} executions per combination", combos.iter().map(|c| (c.0, format!("{:?}", c.1), c.2, c.3)).collect::<Vec<_>>(), max_execs), nc, true, capped2, st);
     let _ = std::fs::remove_dir_all(&base);
     rep.finish()
 }
